@@ -339,6 +339,7 @@ func (a *Agent) initComponents() error {
 	floodCfg.LocalDisplayName = a.cfg.Agent.DisplayName
 	floodCfg.Logger = a.logger
 	floodCfg.SealedBox = a.sealedBox // Pass sealed box for encryption
+	floodCfg.MaxHops = a.cfg.Routing.MaxHops
 
 	// Configure command signing verification if signing public key is set
 	if a.cfg.HasSigningKey() {
